@@ -28,13 +28,13 @@ def sh(cmd, cwd=WT, env=None, timeout=5400):
 if not os.path.isdir(WT):
     rc, o = sh(f"git -C /repo worktree add -q {WT} HEAD", cwd="/")
     assert rc == 0, o
-sh("git checkout -q --detach && git reset -q --hard $(git -C /repo rev-parse HEAD)")
+sh("git reset -q --hard HEAD; git checkout -q --detach; git reset -q --hard $(git -C /repo rev-parse HEAD); git clean -fdq")
 
 for f in known:
     if f.get("status") != "fixed" or (want and f["id"] not in want):
         continue
     fid, pid, commit = f["id"], f["property"], f["commit"]
-    sh("git checkout -q -- . ; git clean -fdq")
+    sh("git reset -q --hard HEAD ; git clean -fdq")
     def rev(c):
         rc, diff = sh(f"git -C /repo show {c} --format= ")
         open("/tmp/revert.patch", "w").write(diff)
@@ -43,7 +43,7 @@ for f in known:
     composite = [commit]
     if rc != 0:
         # later fix: commits touching the same files have to be reverted first (newest first)
-        sh("git checkout -q -- . ; git clean -fdq")
+        sh("git reset -q --hard HEAD ; git clean -fdq")
         rc0, files = sh(f"git -C /repo show {commit} --format= --name-only")
         files = set(files.split())
         rc0, later = sh(f"git -C /repo log --format=%h {commit}..HEAD --grep='^fix:' -- " + " ".join(files))
@@ -84,4 +84,4 @@ for f in known:
                "ran": f"VERIF_REPO=<worktree of /repo HEAD with patch.diff applied> ./check {pid} (orchestrate/revertrun.py)",
                "check_result": chk, "caught": caught}, open(f"{dst}/meta.json", "w"), indent=1)
     print(f"revert-{fid} ({pid}, {commit}): caught={caught} {[(t, v['exit'], v['lines'][:1]) for t, v in chk.items()]}", flush=True)
-sh("git checkout -q -- . ; git clean -fdq")
+sh("git reset -q --hard HEAD ; git clean -fdq")
